@@ -12,6 +12,9 @@ import (
 
 func Symlink(from, to string) error {
 	if WriteOK("symlink source=%s target=%s", from, to) {
+		if err := verifPoint("symlink", from, to); err != nil {
+			return err
+		}
 		err := os.Symlink(to, from)
 		if nil != err {
 			return fmt.Errorf("%s making symlink %s", err, from)
@@ -22,6 +25,9 @@ func Symlink(from, to string) error {
 
 func Rename(source, target string) error {
 	if WriteOK("rename %s to %s", source, target) {
+		if err := verifPoint("rename", source, target); err != nil {
+			return err
+		}
 		return os.Rename(source, target)
 	}
 	return nil
@@ -29,6 +35,9 @@ func Rename(source, target string) error {
 
 func Remove(target string) error {
 	if WriteOK("remove %s", target) {
+		if err := verifPoint("remove", target, ""); err != nil {
+			return err
+		}
 		return os.RemoveAll(target)
 	}
 	return nil
@@ -45,6 +54,9 @@ func Mount(source, target, fstype, options string) error {
 		case "remount":
 			flags = syscall.MS_REMOUNT
 		}
+		if err := verifPoint("mount", source, target); err != nil {
+			return err
+		}
 		err := SyscallMount(source, target, fstype, flags, options)
 		if nil != err {
 			return fmt.Errorf("Cannot mount %s: %s", target, err)
@@ -53,6 +65,9 @@ func Mount(source, target, fstype, options string) error {
 		// Vinculae daemonis systematis frangere!
 		if source == "/dev" || source == "/sys" || source == "/run" {
 			flags = syscall.MS_SLAVE | syscall.MS_REC
+			if err := verifPoint("mount", "", target); err != nil {
+				return err
+			}
 			err = SyscallMount("", target, "", flags, options)
 			if err != nil {
 				return fmt.Errorf("Cannot change propagation type of mount %s: %s",
@@ -68,6 +83,9 @@ func Unmount(mounted string, force bool) error {
 		var flags int
 		if force {
 			flags |= syscall.MNT_FORCE
+		}
+		if err := verifPoint("umount", mounted, ""); err != nil {
+			return err
 		}
 		err := SyscallUnmount(mounted, flags)
 		if err != nil {
